@@ -1,6 +1,6 @@
 \* state-graph export for the conformance replay; harness/checks/C04.py rewrites the Deviations line with the
-\* deviations the implementation actually shows (all of them on the pinned tree)
-\* 2 holes, every action, 4 actions deep
+\* deviations the implementation actually shows
+\* payload data are TEXT: labels of different lengths, re-assigned with longer ones (SetValues toggles short/long)
 SPECIFICATION Spec
 CONSTANTS
   MaxHoles = 2
@@ -9,8 +9,8 @@ CONSTANTS
   Version = 21
   Deviations = {"RenameKeepsLabel", "WsRemoveKeepsChild", "HoleRemovalKeepsObjectRows", "HoleRemovalKeepsGroupChild", "StalePgIdCache", "EmptyTableRaises", "TableByLabel"}
   MaxLevel = 4
-  Acts = {"AddHole", "AddDepthData", "AddIntervalData", "SetValues", "Rename", "RemoveDataViaParent", "RemoveDataViaWorkspace", "RemoveHoleViaParent", "RemoveHoleViaWorkspace", "RemovePropertyGroup", "AddValuesToTable", "Reopen", "CopyGroup"}
-  Kind = "float"
+  Acts = {"AddHole", "AddDepthData", "AddIntervalData", "SetValues", "RemoveDataViaParent", "AddValuesToTable", "Reopen"}
+  Kind = "text"
 VIEW vw
 INVARIANT ExportState
 ACTION_CONSTRAINT ExportTrans
